@@ -1002,30 +1002,37 @@ class Analysis:
         return st
 
     # ---- fixpoint --------------------------------------------------------
-    def run(self, start=None, state=None):
+    PK = ("p", "k")     # state entry holding the partition key (trace partitioning on client-chosen facts)
+
+    def run(self, start=None, state=None, max_parts=48):
+        """fixpoint; states carrying different values under PK are kept apart (joined only with equal keys)"""
         f = self.f
         if f.nocfg:
             return self
         start = f.entry if start is None else start
         init = self.entry_state() if state is None else state
-        self.block_in = {start: init}
+        PK = self.PK
+        parts = {(start, init.get(PK)): init}      # (block, partition key) -> state at block entry
+        self.parts = parts
         visits = {}
-        work = [start]
-        inwork = {start}
+        work = [(start, init.get(PK))]
+        inwork = set(work)
         self.events = []
-        limit = 20000
+        self.pre_parts = {}
+        limit = 60000
+        nparts = {}
         while work and limit > 0:
             limit -= 1
             # process in decreasing block id (approximately reverse post-order in clang CFGs)
-            work.sort()
-            bid = work.pop()
-            inwork.discard(bid)
+            work.sort(key=lambda x: x[0])
+            item = work.pop()
+            inwork.discard(item)
+            bid, pk = item
             b = f.blocks[bid]
-            st = dict(self.block_in[bid])
-            visits[bid] = visits.get(bid, 0) + 1
-            alive = True
+            st = dict(parts[item])
+            visits[item] = visits.get(item, 0) + 1
             for i, el in enumerate(b.el):
-                self.pre[(bid, i)] = dict(st)
+                self.pre_parts.setdefault((bid, i), {})[pk] = dict(st)
                 v = self.ev(el, st, False, el)
                 if "sid" in el and isinstance(v, AV):
                     st[("s", el["sid"])] = v
@@ -1058,24 +1065,39 @@ class Analysis:
                                     out = None
                                     break
                     elif nsucc == 2 and cls in ("IfStmt", "WhileStmt", "ForStmt", "DoStmt", "ConditionalOperator", "BinaryOperator", "BinaryConditionalOperator"):
-                        truth = (si == 0)
-                        if cls == "BinaryOperator" and term.get("op") == "||":
-                            # a || b : succ0 taken when a is true
-                            pass
-                        out = self.refine(out, cond, truth)
-                self.edge_out[(bid, si)] = out
+                        out = self.refine(out, cond, si == 0)
+                eo = self.edge_out.get((bid, si))
+                self.edge_out[(bid, si)] = out if eo is None else (eo if out is None else self.join_states(eo, out))
                 if out is None:
                     continue
-                old = self.block_in.get(s)
+                npk = out.get(PK)
+                if (s, npk) not in parts and nparts.get(s, 0) >= max_parts:
+                    # too many partitions at this block: fold into the anonymous one
+                    npk = "*"
+                    out[PK] = npk
+                key = (s, npk)
+                old = parts.get(key)
                 if old is None:
                     new = out
+                    nparts[s] = nparts.get(s, 0) + 1
                 else:
-                    new = self.join_states(old, out, widen=visits.get(s, 0) >= 3, block=s)
+                    new = self.join_states(old, out, widen=visits.get(key, 0) >= 3, block=s)
                 if old is None or new != old:
-                    self.block_in[s] = new
-                    if s not in inwork:
-                        work.append(s)
-                        inwork.add(s)
+                    parts[key] = new
+                    if key not in inwork:
+                        work.append(key)
+                        inwork.add(key)
+        # partition-blind views
+        self.block_in = {}
+        for (bid, pk), st in parts.items():
+            o = self.block_in.get(bid)
+            self.block_in[bid] = st if o is None else self.join_states(o, st)
+        self.pre = {}
+        for k, d in self.pre_parts.items():
+            o = None
+            for st in d.values():
+                o = st if o is None else self.join_states(o, st)
+            self.pre[k] = o
         self.events_final = list(self.events)
         return self
 
@@ -1086,6 +1108,8 @@ class Analysis:
                 va, vb = a[k], b[k]
                 if va == vb:
                     r[k] = va
+                    continue
+                if not isinstance(va, AV) or not isinstance(vb, AV):
                     continue
                 j = join(va, vb)
                 if widen:
